@@ -122,6 +122,12 @@ func (s *segment) Store(doc types.Map) error {
 		return errors.WithMessagef(ErrKeyDuplicate, "key: %v", id.Interface())
 	}
 
+	for _, idx := range s.indexes {
+		if err := s.conflict(idx, doc); err != nil {
+			return err
+		}
+	}
+
 	s.entries.ReplaceOrInsert(&entry{key: id, value: doc})
 
 	for _, idx := range s.indexes {
@@ -144,6 +150,12 @@ func (s *segment) Swap(doc types.Map) error {
 	old, ok := s.entries.Get(&entry{key: id})
 	if !ok {
 		return errors.WithMessagef(ErrKeyNotFound, "key: %v", id.Interface())
+	}
+
+	for _, idx := range s.indexes {
+		if err := s.conflict(idx, doc); err != nil {
+			return err
+		}
 	}
 
 	s.entries.ReplaceOrInsert(&entry{key: id, value: doc})
@@ -206,6 +218,36 @@ func (s *segment) Range() func(func(types.Value, types.Map) bool) {
 			return yield(e.key, e.value)
 		})
 	}
+}
+
+// conflict reports ErrKeyDuplicate when a unique index already holds another document under the keys of doc.
+func (s *segment) conflict(idx *index, doc types.Map) error {
+	if !idx.Unique || (idx.Filter != nil && !idx.Filter(doc)) {
+		return nil
+	}
+
+	id := doc.Get(types.NewString("id"))
+
+	var val types.Value
+	curr := idx.nodes
+	for _, key := range idx.Keys {
+		val = doc.Get(key)
+
+		next, ok := curr.Get(&node{key: val})
+		if !ok {
+			return nil
+		}
+		curr = next.value
+	}
+
+	var err error
+	curr.Ascend(func(n *node) bool {
+		if types.Compare(n.key, id) != 0 {
+			err = errors.WithMessagef(ErrKeyDuplicate, "key: %v", types.InterfaceOf(val))
+		}
+		return err == nil
+	})
+	return err
 }
 
 func (s *segment) index(idx *index, doc types.Map) error {
